@@ -633,15 +633,75 @@ def _rebuild(ctx, cls):
     if not built or not any(k.arg == "schedule" for k in built[0].keywords):
         chk.violation("R03.d", cs, None, "the rebuilt sequences are not handed to Schedule(schedule=...) (validation skipped)")
     # each operation placed on its own machine with its solved start
-    app = [n for n in own_nodes(cs.node) if isinstance(n, ast.Call) and isinstance(n.func, ast.Attribute) and n.func.attr == "append"]
-    okp = False
-    for a in app:
-        if isinstance(a.func.value, ast.Subscript) and ast.unparse(a.func.value.slice) == "operation.machine_id" and a.args and isinstance(a.args[0], ast.Call):
-            c = a.args[0]
-            args = [ast.unparse(x) for x in c.args]
-            if ast.unparse(c.func) == "ScheduledOperation" and args == ["operation", "start_time", "operation.machine_id"]:
-                okp = True
-    if okp:
+    n_sop = 0
+    okp = True
+    defs = ctx.flow.defs(cs)
+    # loop / comprehension bindings: name -> iterable it is drawn from
+    drawn: dict[str, list] = {}
+    for n in ast.walk(cs.node):
+        if isinstance(n, (ast.For, ast.comprehension)):
+            for x in ast.walk(n.target):
+                if isinstance(x, ast.Name):
+                    drawn.setdefault(x.id, []).append(n.iter)
+        if isinstance(n, ast.DictComp):
+            # the comprehension's value feeds whatever iterates the dict later
+            for g in n.generators:
+                for x in ast.walk(g.target):
+                    if isinstance(x, ast.Name):
+                        drawn.setdefault(x.id, []).append(g.iter)
+
+    def closure(e):
+        seen, work, out = set(), [e], []
+        while work:
+            cur = work.pop()
+            out.append(cur)
+            for x in ast.walk(cur):
+                if isinstance(x, ast.Name) and x.id not in seen:
+                    seen.add(x.id)
+                    for d in defs.of(x.id):
+                        if d[0] == "value" and d[1] is not None:
+                            work.append(d[1])
+                    work.extend(drawn.get(x.id, []))
+        return out
+
+    for c in own_nodes(cs.node):
+        if not (isinstance(c, ast.Call) and ast.unparse(c.func) == "ScheduledOperation"):
+            continue
+        n_sop += 1
+        kw = {k.arg: k.value for k in c.keywords}
+        o = c.args[0] if c.args else kw.get("operation")
+        st = c.args[1] if len(c.args) > 1 else kw.get("start_time")
+        m = c.args[2] if len(c.args) > 2 else kw.get("machine_id")
+        if o is None or st is None or m is None:
+            raise AnalysisError(f"{cs.loc(c)}: ScheduledOperation(...) arguments not recognised")
+        ot, mt = ctx.norm.xtext(cs, o), ctx.norm.xtext(cs, m)
+        if mt != f"{ot}.machine_id":
+            okp = False
+            chk.violation("R03.d", cs, c, f"the operation `{ot}` is scheduled on machine `{mt}`, not on its own machine", loc=cs.loc(c))
+            continue
+        # the list it is appended to / stored in is that machine's
+        par = cs.module.parents.get(c)
+        holder = None
+        if isinstance(par, ast.Call) and isinstance(par.func, ast.Attribute) and par.func.attr == "append" and isinstance(par.func.value, ast.Subscript):
+            holder = ctx.norm.xtext(cs, par.func.value.slice)
+        if holder is not None and holder != mt:
+            okp = False
+            chk.violation("R03.d", cs, par, f"the operation of machine `{mt}` is appended to the list of machine `{holder}`", loc=cs.loc(par))
+            continue
+        cl = closure(st)
+        txt = " ".join(ast.unparse(x) for x in cl)
+        if "_operations_start" not in txt or "Value(" not in txt:
+            okp = False
+            chk.violation("R03.d", cs, c, f"the start time `{ast.unparse(st)}` of the rebuilt operation is not the solver's value of that operation's start variable", loc=cs.loc(c))
+            continue
+        wrong = [
+            x for e in cl for x in ast.walk(e)
+            if isinstance(x, ast.Subscript) and ast.unparse(x.value).endswith("_operations_start") and ctx.norm.xtext(cs, x.slice) != ot
+        ]
+        if wrong:
+            okp = False
+            chk.violation("R03.d", cs, wrong[0], f"the start variable is looked up for `{ast.unparse(wrong[0].slice)}`, not for the operation `{ot}` being placed", loc=cs.loc(c))
+    if n_sop == 0:
+        chk.violation("R03.d", cs, None, "_create_schedule builds no ScheduledOperation")
+    elif okp:
         chk.ok("R03.d", cs.qualname, cs.loc(), "every operation placed on its machine's list with its solved start")
-    else:
-        chk.violation("R03.d", cs, None, "operations are not placed on their own machine's list with their solved start time")
